@@ -67,6 +67,10 @@ CHECKS.update({
          "18k (quick) / 360k (thorough) programs with exactly one injected fault of 13 kinds on a three-digit line whose number cannot occur otherwise in the program: the build must fail and the error text must contain that line number as a stand-alone token, and number+k after k blank lines are inserted above. 8k/160k message programs: .message/.warning/.error at top level, in taken and untaken arms and in EEPROM blocks: images equal those of the twin with the directives blanked, the message list holds exactly the assembled ones in source order with their own line numbers, .error fails exactly when assembled.",
          "The message format itself is not pinned (only text, order and a line-number token). For a duplicate label the line of either definition is accepted.",
          "DESIGN.md §5 C15"),
+ "C16": ("bounded-exhaustive operand dictionary + seeded mutation fuzzing + structural stress inputs, every case in an isolated worker process with rlimit and watchdog",
+         "4.4M cases in quick: every directive and mnemonic x every operand list of length 0-2 over a 29-entry dictionary of valid, boundary and hostile operand texts x 5 contexts (exhaustive), every list of length 3 alone (thorough: in every context, 19M), 50k (thorough 2M) random line/token/byte mutations of generated valid programs and of the repository's fixtures, ~150 stress inputs (nesting depth to 30000, recursion through .equ/.set/macros, absurd .org/.byte, 64 KiB tokens). Each build runs in a worker process (8 MiB stack, 1 GiB address space, 10 s watchdog with a 30 s re-run): the outcome must be a result or an error value; a panic, stack overflow, allocation failure or timeout is a violation. Thorough adds a libFuzzer campaign on raw bytes.",
+         "'Promptly' is judged with a 10 s / 30 s threshold for inputs <= 64 KiB that normally take < 10 ms. Special files (/dev/zero etc.) as include targets are outside the dictionary. Worker pool failures exit 2, never 1.",
+         "DESIGN.md §5 C16"),
 })
 NOT_YET = {}
 
